@@ -115,17 +115,24 @@ def scenarios(tier, seed):
 # ------------------------------------------------------------------------------- model building
 
 
+def _sparse(poly, k):
+  """Coefficient pattern k % 3 of a polynomial 'a b c': 0 -> only the cubic term ('0 0 c'), 1 -> all, 2 -> only the quadratic term.
+  The kernels gate whole force terms on 'any coefficient non-zero', so each coefficient has to be the only non-zero one somewhere."""
+  a, b, c = poly.split()
+  return (f"0 0 {c}", poly, f"0 {b} 0")[k % 3]
+
+
 def _joint_attrs(decos, v):
   def f(i, kind):
     a = ""
     if "armature" in decos:
       a += f' armature="{_ARM[v] + 0.03 * i:.3g}"'
     if "dampingpoly" in decos:
-      a += f' damping="{_DPOLY[v]}"'
+      a += f' damping="{_sparse(_DPOLY[v], i + v)}"'
     elif "damping" in decos:
       a += f' damping="{_DAMP[v] + 0.1 * i:.3g}"'
     if "springpoly" in decos:
-      a += f' stiffness="{_SPOLY[v]}"'
+      a += f' stiffness="{_sparse(_SPOLY[v], i + v + 1)}"'
     elif "spring" in decos:
       a += f' stiffness="{_STIFF[v] + 0.2 * i:.3g}"'
     if ("spring" in decos or "springpoly" in decos) and kind in ("hinge", "slide", "hingeslide"):
@@ -139,15 +146,19 @@ def _tendon_section(n, decos, v):
   """Spatial tendons (work with every joint kind): world site -> s1 (-> sN), and s1 -> sN for n>1."""
   if "tendon" not in decos and "tenarm" not in decos:
     return "", ""
-  attrs = ""
-  if "tendon" in decos:
-    attrs += f' stiffness="{_SPOLY[(v + 1) % 4]}" damping="{_DPOLY[(v + 2) % 4]}" springlength="0.3"'
-  if "tenarm" in decos:
-    attrs += f' armature="{_ARM[(v + 1) % 4]}"'
+  def at(k):
+    a = ""
+    if "tendon" in decos:
+      a += f' stiffness="{_sparse(_SPOLY[(v + 1) % 4], k)}" damping="{_sparse(_DPOLY[(v + 2) % 4], k + 1)}" springlength="0.3"'
+    if "tenarm" in decos:
+      a += f' armature="{_ARM[(v + 1) % 4]}"'
+    return a
+
+  attrs = at(1)
   world = '<site name="sw" pos="0.05 -0.4 0.6" size="0.01"/>'
   t = f'<spatial name="t0"{attrs}><site site="sw"/><site site="s1"/></spatial>'
   if n > 1:
-    t += f'<spatial name="t1"{attrs}><site site="sw"/><site site="s{n}"/></spatial>'
+    t += f'<spatial name="t1"{at(2 + v)}><site site="sw"/><site site="s{n}"/></spatial>'
   return world, f"<tendon>{t}</tendon>"
 
 
